@@ -229,6 +229,9 @@ def run(ctx):
                'resize(1), get() dropped, A returned: two objects at once with max_size 1)' if not tested else '',
                construct='abandon:shrink-debt-ignored')
 
+    # ---- R03.11 any further counter a get() raises and lowers is lowered on every way out ---------------------------
+    paired_counters(ctx, r, 'R03.11', [prog.bodies[p_] for p_ in r.GETTER if p_ in prog.bodies])
+
     # ---- R03.9 an abandoned or panicking get() leaves all three books balanced (effect ledger) ----------------
     from .ledger_rules import ledger_obligations
     getters = {b.path for b in ctx.prog.bodies.values() if b.is_coroutine and b.path in set(r.GETTER) | {r.TIMEOUT_GET.path}}
